@@ -177,3 +177,54 @@ def hostile(rng, vocab):
         else:
             parts.append(chr(rng.choice([rng.randrange(0x20, 0x7f), rng.randrange(0xa0, 0x2000), rng.randrange(0x10000, 0x10ffff)])))
     return tame("".join(parts))
+
+
+FORMALS = ["()", "x", "(x)", "(x y)", "(x . y)", "(x y . z)", "((a) b)", "(1)", "(x x)", "(x . 1)", "\"s\"", "(x (y))", "#(x)", "(x . (y))",
+           "(. x)", "(x .)", "'x", "(x 'y)", "(#t)", "(x . #(y))"]
+ATOMS = ["1", "2", "x", "y", "'a", "#t", "#f", "\"s\"", "'()", "'(1 2)", "#(1 2)", "1/2", "1.5", "car", "f", "g", "h", "(list 1 2)", "(vector 1)"]
+
+
+def shaped_expr(rng, depth):
+    r = rng.random()
+    if depth <= 0 or r < 0.3:
+        return rng.choice(ATOMS)
+    if r < 0.45:
+        return "(%s %s)" % (rng.choice(["f", "g", "h", "car", "apply", "map", "+", "vector-ref", "x"]),
+                            " ".join(shaped_expr(rng, depth - 1) for _ in range(rng.randint(0, 4))))
+    if r < 0.55:
+        return "(if %s %s %s)" % tuple(shaped_expr(rng, depth - 1) for _ in range(3))
+    if r < 0.65:
+        return "(lambda %s %s)" % (rng.choice(FORMALS), shaped_expr(rng, depth - 1))
+    if r < 0.72:
+        return "((lambda %s %s) %s)" % (rng.choice(FORMALS), shaped_expr(rng, depth - 1),
+                                         " ".join(shaped_expr(rng, depth - 1) for _ in range(rng.randint(0, 3))))
+    if r < 0.80:
+        kw = rng.choice(["let", "let*"])
+        return "(%s (%s) %s)" % (kw, " ".join("(%s %s)" % (rng.choice(["x", "y", "1", "(a)"]), shaped_expr(rng, depth - 1))
+                                               for _ in range(rng.randint(0, 3))), shaped_expr(rng, depth - 1))
+    if r < 0.86:
+        return "(cond %s)" % " ".join("(%s %s)" % (rng.choice(["else", shaped_expr(rng, depth - 1)]),
+                                                   rng.choice(["=> " + shaped_expr(rng, depth - 1), shaped_expr(rng, depth - 1), ""]))
+                                      for _ in range(rng.randint(0, 3)))
+    if r < 0.90:
+        return "(case %s %s)" % (shaped_expr(rng, depth - 1), " ".join(
+            "(%s %s)" % (rng.choice(["else", "(1 2)", "(a)", "()", "1"]), shaped_expr(rng, depth - 1)) for _ in range(rng.randint(0, 3))))
+    if r < 0.94:
+        return "(%s %s)" % (rng.choice(["and", "or", "begin", "when", "unless"]),
+                            " ".join(shaped_expr(rng, depth - 1) for _ in range(rng.randint(0, 3))))
+    if r < 0.97:
+        return "(set! %s %s)" % (rng.choice(["x", "f", "1", "(x)"]), shaped_expr(rng, depth - 1))
+    return "(apply %s %s)" % (rng.choice(["f", "g", "car", "+"]), rng.choice(["'(1 2)", "'()", "1", "'(1 . 2)", "(list 1 2 3)"]))
+
+
+def shaped(rng):
+    """almost-valid programs: definitions with odd formals, calls with any arity in tail and non-tail position"""
+    forms = []
+    for name in rng.sample(["f", "g", "h"], rng.randint(1, 3)):
+        if rng.random() < 0.5:
+            forms.append("(define (%s . %s) %s)" % (name, rng.choice(FORMALS).strip("()") or "a", shaped_expr(rng, 3)))
+        else:
+            forms.append("(define %s (lambda %s %s))" % (name, rng.choice(FORMALS), shaped_expr(rng, 3)))
+    for _ in range(rng.randint(1, 3)):
+        forms.append(shaped_expr(rng, 3))
+    return tame(" ".join(forms))
